@@ -148,6 +148,7 @@ def execute(scn):
     if kind == "session":
         return sim.run_scenario(scn, shadow=False, hooks=SessionOracle())
     lib = loader.load()
+    lib.trip._ctr = 0
     w = MiniWorld(scn)
     step = scn["steps"][0]
     if kind == "drive":
